@@ -206,6 +206,12 @@ class Interp:
 
     def require(self, st, fr, node, kind, what, goal_txt, ok):
         """A precondition obligation with a boolean verdict already computed."""
+        if not ok and fr is not None and fr.fn is not None and fr.parent is not None and fr.parent.fn is None:
+            import specs
+            why = specs.documented_require(fr.fn["path"], what)
+            if why:
+                self.oblige(kind, fr, node, what, goal_txt, True, "documented: " + why, status="requires")
+                return ok
         self.oblige(kind, fr, node, what, goal_txt, ok, "lp" if ok else "", detail="" if ok else self.describe(st))
         return ok
 
